@@ -217,7 +217,7 @@ def commit_reevaluate(cx):
     cx.check(n >= 2, "floor", "the acknowledgement handler and the persistence notice were found")
 
 
-@obligation("PERSIST.writers", ["C04", "C07", "C14"], floor=4, kind="who-may-write + guard + value",
+@obligation("PERSIST.writers", ["C04", "C07", "C14", "C20"], floor=4, kind="who-may-write + guard + value",
             why="a stale persistence notice must not cover entries that were since replaced; truncation and restore must lower the mark")
 def persist_writers(cx):
     ws = cx.prog.writes.get(PERSISTED, [])
@@ -291,7 +291,67 @@ def persist_callers(cx):
         for c in ncs:
             key = cx.site_key(c, "call:" + fn_name(nf))
             args = call_args(cx, c)
-            from_records = fn_name(c.fn) == "RawNode::on_persist_ready" and all(contains(fld("RawNode.records"), a) for a in args[1:])
+            def traced(a_):
+                if contains(fld("RawNode.records"), a_):
+                    return True
+                # the point is gathered in a local struct first (`point.last_entry = record.last_entry`): every value
+                # stored into that struct comes from the records, or is the zero it starts with
+                roots = [x for x in walk(a_) if x[0] == "local"]
+                if len(roots) != 1:
+                    return False
+                L = roots[0][1]
+                an_ = cx.prog.A(c.fn)
+                vals = []
+                for bi_ in sorted(an_.reach):
+                    for si_, st_ in enumerate(c.fn.body.blocks[bi_]["stmts"]):
+                        if st_["k"] == "assign" and st_["place"]["l"] == L:
+                            vals.append(an_.expr_rvalue(st_["rv"], (bi_, si_)))
+                    t_ = c.fn.body.blocks[bi_]["term"]
+                    if t_["k"] == "call" and t_.get("dest") and t_["dest"]["l"] == L:
+                        vals.append(an_.expr_call(t_, (bi_, "term")))
+                def fine(v_):
+                    if contains(fld("RawNode.records"), v_) or v_ == ("int", 0):
+                        return True
+                    if v_[0] == "call" and v_[1].endswith("Default>::default"):
+                        return True
+                    if v_[0] in ("tuple",):
+                        return all(fine(x) for x in v_[1])
+                    if v_[0] == "adt":
+                        return all(fine(x) for _, x in v_[2])
+                    return False
+                return bool(vals) and all(fine(v_) for v_ in vals)
+            from_records = fn_name(c.fn) == "RawNode::on_persist_ready" and all(traced(a) for a in args[1:])
+            if notif == "Raft::on_persist_entries" and fn_name(c.fn) == "RawNode::on_persist_ready":
+                # a record that carries a snapshot supersedes every entry point gathered from older records: the snapshot
+                # replaced the log, and (index, term) of an entry from before it must not be acknowledged after it
+                g_ = cx.pg(c.fn)
+                an_ = cx.prog.A(c.fn)
+                evars = {x[1] for a_ in args[1:] for x in walk(a_) if x[0] in ("phi", "local") and len(x) > 1 and isinstance(x[1], int)}
+                efields = {x[2].split(".")[-1] for a_ in args[1:] for x in walk(a_) if x[0] == "field"}
+                def zero(v_):
+                    if v_ == ("int", 0) or (v_[0] == "tuple" and bool(v_[1]) and all(zero(y) for y in v_[1])):
+                        return True
+                    # `*point = Point { snap_index: i, last_entry: (0, 0) }`: the fields the acknowledgement reads are zeroed
+                    if v_[0] == "adt" and v_[2]:
+                        d_ = dict(v_[2])
+                        hit = [n for n in d_ if n in efields]
+                        return bool(hit) and all(zero(d_[n]) for n in hit)
+                    return False
+                zb = set()
+                for bi_ in sorted(an_.reach):
+                    for si_, st_ in enumerate(c.fn.body.blocks[bi_]["stmts"]):
+                        if st_["k"] != "assign":
+                            continue
+                        tgt_ = st_["place"]["l"] in evars
+                        if not tgt_ and st_["place"]["p"]:
+                            # a write through a reference to the gathering struct (`*self = ..` inside a spliced-in method)
+                            pe_ = an_.expr_place(st_["place"], (bi_, si_))
+                            tgt_ = any(x[0] == "local" and x[1] in evars for x in walk(pe_))
+                        if tgt_ and zero(an_.expr_rvalue(st_["rv"], (bi_, si_))):
+                            zb.add(bi_)
+                snap_some = lambda lits: any(l[0] == "in" and l[2] == frozenset(["Some"]) and contains(fld("ReadyRecord.snapshot"), l[1]) for l in lits)
+                okz, nz = g_.after_edge_must_pass(snap_some, lambda b: b in zb)
+                cx.check(okz and nz >= 1, cx.site_key(c, "snapshot-resets-entry-point"), "a popped record that carries a snapshot resets the (index, term) gathered from older records", c)
             cx.check(from_records, key, "persistence is acknowledged only with (index, term) recorded for a Ready (RawNode.records)", c, args=[show(a)[:120] for a in args[1:]])
         cx.check(bool(ncs), "callers:" + fn_name(nf), "%s has an in-crate caller (RawNode::on_persist_ready)" % fn_name(nf))
     tr = cx.facts.traits.get("raft::storage::Storage")
